@@ -1,8 +1,13 @@
 #!/bin/sh
-# regenerate lean/LiskVerif/Gen/Skeletons.lean and .build/skeletons.json from /repo
+# regenerate from /repo, one Lean file per configured group:
+#   lean/LiskVerif/Gen/Skeletons.lean        (C20)   + .build/skeletons.json
+#   lean/LiskVerif/Gen/SkeletonsTxPool.lean  (C14)   + .build/skeletons-txpool.json
+#   lean/LiskVerif/Gen/SkeletonsP2P.lean     (C17)   + .build/skeletons-p2p.json
+# VERIF_REPO / VERIF_LEAN override the repository and the Lean project (private copies).
 set -e
 cd "$(dirname "$0")"
 export GOFLAGS=-mod=mod GOPROXY=off GOSUMDB=off GOTOOLCHAIN=local
-mkdir -p ../../.build ../../lean/LiskVerif/Gen
+LEAN="${VERIF_LEAN:-../../lean}"
+mkdir -p ../../.build "$LEAN/LiskVerif/Gen"
 go build -o ../../.build/skelgen .
-../../.build/skelgen -repo "${VERIF_REPO:-/repo}" -lean ../../lean/LiskVerif/Gen/Skeletons.lean -json ../../.build/skeletons.json "$@"
+../../.build/skelgen -repo "${VERIF_REPO:-/repo}" -leandir "$LEAN/LiskVerif/Gen" -jsondir ../../.build "$@"
